@@ -5,8 +5,8 @@
    any sequence of calls of the translated code behaves like the abstract seed model. *)
 From Coq Require Import String.
 From PS Require Import Base GFDefs PackDefs StoreDefs MiscDefs StrDefs LangDefs ApiDefs SpecDefs SpecApi.
-From PS Require Import GFProofs MiscProofs PackProofs PackTheorems StoreProofs SeedProofs ApiLemmas RefineProofs ApiTheorems FrameProofs.
-From PS Require Import CTieBase CTieLang CTiePhrase CTieFeat CTieStore CTieSplit CTieApi CTieDecode CTieEncode.
+From PS Require Import GFProofs MiscProofs PackProofs PackTheorems StoreProofs SeedProofs ApiLemmas RefineProofs ApiTheorems TraceProofs FrameProofs.
+From PS Require Import CTieBase CTieLang CTiePhrase CTieFeat CTieStore CTieSplit CTieApi CTieDecode CTieEncode CTieInject.
 From PS.Gen Require Import Consts PrivConsts Langs.
 From PS.Gen Require CFuns CApi.
 Local Open Scope N_scope.
@@ -96,7 +96,7 @@ Section Machine.
      OutStatus (Z.to_N status) (if (status =? 0)%Z then Some (hnd so) else None) (if (status =? 0)%Z then lang else None),
      evs_of (st_deps st) cevs).
 
-  (* one call of the translated code; operations not yet run through the generated code fall back to the mirror *)
+  (* one call of the translated code *)
   Definition cstep (st : state) (o : op) : state * out * list event :=
     let tbl := CFuns.polyseed_mul2_table in
     let res := zN (st_reserved st) in
@@ -182,10 +182,21 @@ Section Machine.
         end
       | _, _ => (st, OutFault, [])
       end
+    | OpInject d =>
+      (* the table handed in, one integer per entry: the five mandatory entries are non-NULL, an optional entry is
+         NULL exactly when the mirror's flag says so; the table in place afterwards is read back from what the
+         translated polyseed_inject returns (an entry equal to a libc default code sets the flag) *)
+      let code (libc : bool) (k : Z) : Z := if libc then 0%Z else k in
+      let old (libc : bool) (k : Z) : Z := if libc then k else 1%Z in
+      let dp := st_deps st in
+      let '(_, _, _, _, _, t, a, f) :=
+        CApi.polyseed_inject 1%Z 1%Z 1%Z 1%Z 1%Z (code (dp_time_libc d) 1%Z) (code (dp_alloc_libc d) 1%Z) (code (dp_free_libc d) 1%Z)
+          1%Z 1%Z 1%Z 1%Z 1%Z (old (dp_time_libc dp) LIBC_TIME) (old (dp_alloc_libc dp) LIBC_MALLOC) (old (dp_free_libc dp) LIBC_FREE) in
+      (mkstate (mkdeps (dp_tag d) (dp_nfc d) (dp_nfkd d) (dp_kdf d) (t =? LIBC_TIME)%Z (a =? LIBC_MALLOC)%Z (f =? LIBC_FREE)%Z)
+         (st_reserved st) (st_heap st) (st_next st), OutUnit, [])
     | OpEnable mask =>
       let '(r, n) := CFuns.polyseed_enable_features res (zN mask) in
       (mkstate (st_deps st) (Z.to_N r) (st_heap st) (st_next st), OutNum (Z.to_N n), [])
-    | _ => step sgn langs st o
     end.
 
   (* the shape every constructor tie has, turned into the equality of the two machines *)
@@ -330,6 +341,13 @@ Section Machine.
       rewrite (cstr_zs s (0%Z :: rest) Hout) by (right; eexists; reflexivity). rewrite bytes_of_zs, N2Z.id. reflexivity.
   Qed.
 
+  Theorem cstep_inject st d : cstep st (OpInject d) = step sgn langs st (OpInject d).
+  Proof.
+    unfold cstep. cbv zeta. rewrite tie_inject. cbn [step].
+    destruct d as [tag nfc nfkd kdf tl al fl]. cbn [dp_tag dp_nfc dp_nfkd dp_kdf dp_time_libc dp_alloc_libc dp_free_libc].
+    destruct tl, al, fl; reflexivity.
+  Qed.
+
   (* what a call must satisfy for the generated code to be run on it with this much fuel *)
   Definition op_ready (st : state) (o : op) : Prop :=
     match o with
@@ -355,12 +373,12 @@ Section Machine.
         (forall x, snd (dp_nfc (st_deps st) x) < 2 ^ 64) /\
         match snd (fst (step sgn langs st (OpEncode h li coin))) with
         | OutStr o _ => no_nul o | OutFault => heap_get (st_heap st) h = None \/ nth_error langs li = None | _ => False end
-    | _ => True     (* OpInject: the mirror's own step (polyseed_inject is tied separately, CTieInject) *)
+    | _ => True
     end.
 
   Theorem cstep_ok st o : op_ready st o -> cstep st o = step sgn langs st o.
   Proof.
-    destruct o; cbn [op_ready]; intros H; try reflexivity; try (apply cstep_simple; exact H).
+    destruct o; cbn [op_ready]; intros H; try reflexivity; try (apply cstep_simple; exact H); try apply cstep_inject.
     - destruct H. apply cstep_create; assumption.
     - destruct H. apply cstep_load; assumption.
     - destruct H as (?&?&?&?&?). apply cstep_decode; assumption.
@@ -392,6 +410,58 @@ Section Machine.
     destruct (step sgn langs st o) as [[st1 out1] ev1]. cbn [fst] in H2. rewrite (IH st1 H2). reflexivity.
   Qed.
 
+  (* Ready is not vacuous: for every state related to an abstract state (every reachable state: reachable_valid) and
+     every history of calls that take no strings, the C preconditions and the bounds of the integer arguments suffice *)
+  Definition simple_ok (o : op) : Prop :=
+    match o with
+    | OpEnable mask => mask < 2 ^ 32
+    | OpCreate features _ clock _ => features < 2 ^ 32 /\ clock < 2 ^ 64
+    | OpLoad buf _ => length buf = 32%nat /\ bytes_ok buf
+    | OpKeygen _ coin _ => coin < 2048
+    | OpStore _ | OpGetBirthday _ | OpGetFeature _ _ | OpIsEncrypted _ | OpFree _ | OpFreeNull => True
+    | _ => False
+    end.
+
+  Lemma simple_op_ok o : simple_ok o -> op_ok o.
+  Proof. destruct o; cbn; tauto. Qed.
+
+  Lemma live_valid_R cs a h : R cs a -> live_valid cs h.
+  Proof.
+    intros HR. unfold live_valid. destruct (heap_get (st_heap cs) h) as [d|] eqn:E; [|exact I].
+    exact (heap_get_valid _ _ _ (R_valid _ _ HR) E).
+  Qed.
+
+  Theorem ready_simple ops : forall cs a, R cs a -> Forall simple_ok ops -> Ready cs ops.
+  Proof.
+    induction ops as [|o ops IH]; intros cs a HR Hok; [exact I|].
+    inversion Hok as [|? ? Ho Hops]; subst. cbn [Ready]. split.
+    - destruct o; cbn [simple_ok] in Ho; try contradiction; cbn [op_ready]; try exact Ho; try exact I;
+        try (apply (live_valid_R cs a _ HR)).
+      split; [apply (live_valid_R cs a _ HR) | lia].
+    - destruct (step_refines sgn cs a o HR (simple_op_ok o Ho)) as [_ R1]. exact (IH _ _ R1 Hops).
+  Qed.
+
+  (* ... and for a call that takes a string: the first phrase of the repository's tests, on the initial state *)
+  Definition test_phrase : bytes := [x72; x61; x76; x65; x6e; x20; x74; x61; x69; x6c; x20; x73; x77; x65; x61; x72; x20; x69; x6e; x66; x61; x6e; x74; x20; x67; x72; x69; x65; x66; x20; x61; x73; x73; x69; x73; x74; x20; x72; x65; x67; x75; x6c; x61; x72; x20; x6c; x61; x6d; x70; x20; x64; x75; x63; x6b; x20; x76; x61; x6c; x69; x64; x20; x73; x6f; x6d; x65; x6f; x6e; x65; x20; x6c; x69; x74; x74; x6c; x65; x20; x68; x61; x72; x73; x68; x20; x70; x75; x70; x70; x79; x20; x61; x69; x72; x70; x6f; x72; x74; x20; x6c; x61; x6e; x67; x75; x61; x67; x65].
+
+  Example ready_decode : (600 <= fuel)%nat ->
+    Ready init_state [OpDecode test_phrase 0 true] /\ Ready init_state [OpDecodeExplicit test_phrase 0 0%nat true].
+  Proof.
+    intros Hf.
+    assert (Nn : no_nul test_phrase).
+    { unfold no_nul. intros I. assert (T : existsb (Byte.eqb x00) test_phrase = true) by (apply existsb_exists; exists x00; split; [exact I|reflexivity]).
+      vm_compute in T. discriminate T. }
+    assert (Ln : (length test_phrase + 2 <= fuel)%nat).
+    { assert (L98 : length test_phrase = 104%nat) by (vm_compute; reflexivity). rewrite L98. lia. }
+    assert (Id : fst (dp_nfkd (st_deps init_state) test_phrase) = test_phrase) by reflexivity.
+    split; cbn [Ready op_ready]; rewrite Id; (split; [|exact I]).
+    - split; [exact Nn|]. split; [reflexivity|]. split; [exact Ln|]. split; [exact Nn | exact Ln].
+    - split.
+      { destruct (nth_error langs 0) as [L|] eqn:E; [exists L; reflexivity|]. exfalso. apply nth_error_None in E.
+        assert (Hl : length langs = 10%nat) by (vm_compute; reflexivity). rewrite Hl in E. lia. }
+      split; [exact Nn|]. split; [reflexivity|]. split; [exact Ln|]. split; [exact Nn | exact Ln].
+  Qed.
+
   (* with C13_refinement: any history of calls of the TRANSLATED code gives, call by call, the outputs of the abstract
      seed machine (a seed is secret, birthday, features), and ends in a related state *)
   Theorem code_refinement ops : forall cs a, R cs a -> Forall op_ok ops -> Ready cs ops ->
@@ -399,5 +469,33 @@ Section Machine.
     R (fst (crun cs ops)) (fst (arun langs a ops)).
   Proof.
     intros cs a HR Hok Hr. rewrite (crun_run cs ops Hr). apply run_refines; assumption.
+  Qed.
+
+  (* the trace theorems, read off the events of the TRANSLATED code: C15 (ledger), C16 (wipe before free, frames
+     clean), C18 (every event goes through the table in place) *)
+  Theorem code_ledger st o : op_ready st o -> TraceProofs.Fresh st ->
+    let r := cstep st o in
+    TraceProofs.ledger (TraceProofs.handles st) (snd r) = Some (TraceProofs.handles (fst (fst r))) /\ TraceProofs.Fresh (fst (fst r)).
+  Proof. intros H HF. cbv zeta. rewrite (cstep_ok st o H). exact (TraceProofs.step_ledger sgn langs st o HF). Qed.
+
+  Theorem code_frees_wiped st o : op_ready st o -> TraceProofs.frees_wiped None (snd (cstep st o)) = true.
+  Proof. intros H. rewrite (cstep_ok st o H). exact (TraceProofs.step_frees_wiped sgn langs st o). Qed.
+
+  Theorem code_frame_clean st o : op_ready st o -> TraceProofs.frame_clean o (cstep st o) = true.
+  Proof. intros H. rewrite (cstep_ok st o H). exact (TraceProofs.step_frame_clean sgn langs st o). Qed.
+
+  Theorem code_uses_table st o : op_ready st o -> forallb (TraceProofs.ev_uses (st_deps st)) (snd (cstep st o)) = true.
+  Proof. intros H. rewrite (cstep_ok st o H). exact (TraceProofs.step_uses_table sgn langs st o). Qed.
+
+  (* C20 on the code: for any global order of calls on seeds, the calls of one thread's seeds give what they give when
+     run alone - read off histories of the TRANSLATED code (both histories must be runnable: Ready) *)
+  Theorem code_interleaving mine ops a b :
+    Distinct a -> Distinct b -> same_view mine a b -> forallb handle_op ops = true ->
+    Ready a ops -> Ready b (filter (is_mine mine) ops) ->
+    my_results mine ops (snd (crun a ops)) = snd (crun b (filter (is_mine mine) ops)) /\
+    same_view mine (fst (crun a ops)) (fst (crun b (filter (is_mine mine) ops))).
+  Proof.
+    intros Da Db V Hh Ra Rb. rewrite (crun_run a ops Ra), (crun_run b _ Rb).
+    apply interleaving_invisible; assumption.
   Qed.
 End Machine.
